@@ -331,7 +331,7 @@ func TestC16(t *testing.T) {
 	_ = flag.Set("rapid.steps", "10")
 	stCfg := gen.StateCfg{D: gen.Small, JSON: true, Top: true}
 	paths := gen.AllPaths(stCfg)
-	check(t, 0, budget(120, 5000), func(rt *rapid.T) {
+	check(t, 0, budget(500, 6000), func(rt *rapid.T) {
 		w := &c16World{lib: ast.NewKnowledgeLibrary(), model: newC16Model(), soloCache: map[string][]c07Outcome{}}
 		for i := 0; i < 2; i++ {
 			w.states = append(w.states, gen.SeededState(rapid.Uint64Range(0, 1<<16).Draw(rt, "state_seed"), stCfg))
